@@ -7,8 +7,15 @@ From Coq Require Import List ZArith NArith Bool.
 From Cambrian Require Import SourceFacts Cli CliProofs.
 Import ListNotations.
 
-(** regenerated from src/process.rs: a guard whose Drop kills the group is created after the spawn *)
+(** regenerated from src/process.rs: a guard whose Drop kills the group is created after the spawn;
+    it kills with SIGKILL (a member may ignore SIGTERM) and nothing can disarm it: only such a
+    guard is the [guard = true] of the model; [evaluate] selects over the child's result, the kill
+    timeout and the abort signal *)
 Example group_guard_present : process_group_guard_present = true.
+Proof. reflexivity. Qed.
+Example group_guard_effective : guard_kills_with_sigkill && guard_never_disarmed = true.
+Proof. reflexivity. Qed.
+Example evaluate_select_shape : evaluate_selects_result_timeout_abort = true.
 Proof. reflexivity. Qed.
 
 (** Whatever the group does (members fork and exit, the leader exits, the timer fires, the abort
